@@ -6,14 +6,14 @@ package main
 // implementation's output here, in float64, against an independently written reference (entry-wise sums, row-by-column
 // sums, permutation expansion of the determinant, Hamilton / sandwich product, R(S*v)+T, interval membership), with a
 // tolerance proportional to the magnitude of the terms that were added up (rel * sum of |terms|).  On the exact stream
-// (integer / dyadic inputs on which the implementation's float64 arithmetic is exact) rel = 1e-12, otherwise 1e-9.
+// (integer / dyadic inputs on which the implementation's float64 arithmetic is exact) rel = 1e-14, otherwise 1e-9.
 
 import (
 	"fmt"
 	"math"
 )
 
-const relExact, relFloat = 1e-12, 1e-9
+const relExact, relFloat = 1e-14, 1e-9
 
 func relOf(exact bool, override float64) float64 {
 	if override > 0 {
